@@ -194,7 +194,12 @@ func runOpts(c *Ctx) {
 				switch s {
 				case "defaults+call":
 				case "call":
-					if !a.guardNoDefaults {
+					if !a.guardNoDefaults && !a.empty["defaults"] {
+						okAll = false
+					}
+				case "defaults":
+					// defaults alone only when there are no call-time options
+					if !a.empty["call"] {
 						okAll = false
 					}
 				default:
@@ -202,6 +207,15 @@ func runOpts(c *Ctx) {
 				}
 			}
 			sort.Strings(descr)
+			onto := ""
+			for _, a := range alts {
+				if a.onto != "" {
+					onto = a.onto
+				}
+			}
+			c.R.Add("OPTORDER", "merger|private-list", "defaultsMerger", p.InstrPos(ac), onto == "",
+				"the merged option list is built in memory of its own: nothing is appended onto the defaults' (or the caller's) slice, whose spare capacity other Funcs and later calls may share",
+				ternary(onto == "", "fresh list", "call-time options are appended onto the "+onto+" slice itself"))
 			c.R.Add("OPTORDER", "merger|defaults-before-call", "defaultsMerger", p.InstrPos(ac), okAll,
 				"the option list handed to the applier is construction-time defaults followed by call-time options (call options alone only when there are no defaults)",
 				"source sequence(s): "+strings.Join(descr, " | "))
@@ -492,7 +506,14 @@ func (c *Ctx) fromAPI(v ssa.Value) bool {
 type optAlt struct {
 	seq             []string
 	guardNoDefaults bool
+	// components known to be empty on the path that produces this sequence (atom name -> true)
+	empty map[string]bool
+	// the list was grown by appending onto memory that is not private to the merge (the first component's own slice)
+	onto string
 }
+
+// optEnv binds the slice parameters of a list-joining helper to the sequences of the arguments at the call being expanded.
+var optEnv map[*ssa.Parameter][]optAlt
 
 // optSeq computes, for the slice value v in the defaults merger, the possible
 // source sequences: "defaults" (load of a Func field of type []Arg) and "call"
@@ -505,8 +526,34 @@ func (c *Ctx) optSeq(f *ssa.Function, v ssa.Value, d int) []optAlt {
 		fr, ok := core.AsFieldLoad(x)
 		return ok && fr.Owner == "Func" && core.TypeStr(x.Type()) == "[]Arg"
 	}
+	// emptiness guards: `len(X) == 0` where X is one atom
+	emptyOf := func(gs []core.Guard) map[string]bool {
+		out := map[string]bool{}
+		for _, g := range gs {
+			l := core.LitOf(g.Cond, g.Pol)
+			if l.Kind != "cmp" {
+				continue
+			}
+			cl, ok := l.X.(*ssa.Call)
+			if !ok || core.CalleeName(cl.Common()) != "builtin.len" {
+				continue
+			}
+			k, isK := core.ConstInt(l.Y)
+			if !isK || k != 0 || !((l.Op == token.GTR && !l.Pol) || (l.Op == token.EQL && l.Pol)) {
+				continue
+			}
+			as := c.optSeq(f, cl.Common().Args[0], d+1)
+			if len(as) == 1 && len(as[0].seq) == 1 {
+				out[as[0].seq[0]] = true
+			}
+		}
+		return out
+	}
 	switch x := v.(type) {
 	case *ssa.Parameter:
+		if alts, ok := optEnv[x]; ok {
+			return alts
+		}
 		return []optAlt{{seq: []string{"call"}}}
 	case *ssa.Phi:
 		var out []optAlt
@@ -525,13 +572,57 @@ func (c *Ctx) optSeq(f *ssa.Function, v ssa.Value, d int) []optAlt {
 					}
 				}
 			}
+			em := emptyOf(append(core.Guards(pred), edgeGuard(pred, x.Block())...))
 			for _, a := range alts {
 				a.guardNoDefaults = a.guardNoDefaults || noDef
+				if len(em) > 0 {
+					m := map[string]bool{}
+					for k := range a.empty {
+						m[k] = true
+					}
+					for k := range em {
+						m[k] = true
+					}
+					a.empty = m
+				}
 				out = append(out, a)
 			}
 		}
 		return out
 	case *ssa.Call:
+		// a list-joining helper: its returned list, with its slice parameters read as the arguments of this call
+		if h := x.Common().StaticCallee(); h != nil && c.P.PrivateHelper(h) && h.Signature.Results().Len() == 1 && core.TypeStr(h.Signature.Results().At(0).Type()) == "[]Arg" && d < 4 {
+			saved := optEnv
+			env := map[*ssa.Parameter][]optAlt{}
+			for k, v := range saved {
+				env[k] = v
+			}
+			for i, prm := range h.Params {
+				if i < len(x.Common().Args) && core.TypeStr(prm.Type()) == "[]Arg" {
+					env[prm] = c.optSeq(f, x.Common().Args[i], d+1)
+				}
+			}
+			optEnv = env
+			var out []optAlt
+			for _, r := range core.Returns(h) {
+				em := emptyOf(core.Guards(r.Block()))
+				for _, a := range c.optSeq(h, r.Results[0], d+1) {
+					if len(em) > 0 {
+						m := map[string]bool{}
+						for k := range a.empty {
+							m[k] = true
+						}
+						for k := range em {
+							m[k] = true
+						}
+						a.empty = m
+					}
+					out = append(out, a)
+				}
+			}
+			optEnv = saved
+			return out
+		}
 		if core.CalleeName(x.Common()) == "builtin.append" {
 			a := c.optSeq(f, x.Common().Args[0], d+1)
 			var b []optAlt
@@ -541,10 +632,26 @@ func (c *Ctx) optSeq(f *ssa.Function, v ssa.Value, d int) []optAlt {
 			if core.IsNilConst(x.Common().Args[0]) {
 				a = []optAlt{{}}
 			}
+			if mk, ok := x.Common().Args[0].(*ssa.Slice); ok {
+				if ms, ok := mk.X.(*ssa.MakeSlice); ok {
+					if k, ok := core.ConstInt(ms.Len); ok && k == 0 {
+						a = []optAlt{{}} // make([]T, 0, n): an empty list to append onto
+					}
+				}
+			}
+			if ms, ok := x.Common().Args[0].(*ssa.MakeSlice); ok {
+				if k, ok := core.ConstInt(ms.Len); ok && k == 0 {
+					a = []optAlt{{}}
+				}
+			}
 			var out []optAlt
 			for _, p1 := range a {
 				for _, p2 := range b {
-					out = append(out, optAlt{seq: append(append([]string{}, p1.seq...), p2.seq...)})
+					alt := optAlt{seq: append(append([]string{}, p1.seq...), p2.seq...), empty: p1.empty, onto: p1.onto}
+					if alt.onto == "" && len(p1.seq) > 0 && len(p2.seq) > 0 && !c.P.FreshIn(x.Common().Args[0]) {
+						alt.onto = p1.seq[0]
+					}
+					out = append(out, alt)
 				}
 			}
 			return out
@@ -961,7 +1068,16 @@ func (c *Ctx) runReject(walker *ssa.Function) {
 	if lifter != nil && isStruct != nil {
 		// in the positional loop, a marker struct among several parameters is an error
 		ok := false
-		for _, r := range core.Returns(lifter) {
+		var lifterRets []*ssa.Return
+		for _, g := range p.Region(lifter) {
+			if g.Parent() == nil {
+				lifterRets = append(lifterRets, core.Returns(g)...)
+			}
+		}
+		for _, r := range lifterRets {
+			if len(r.Results) == 0 {
+				continue
+			}
 			ev := r.Results[len(r.Results)-1]
 			if _, isCall := core.Strip(ev).(*ssa.Call); !isCall {
 				continue
@@ -982,7 +1098,7 @@ func (c *Ctx) runReject(walker *ssa.Function) {
 		c.R.Add("REJECT", "lifter|marker-struct-mixed", "lifter", p.Pos(lifter.Pos()), ok, "a marker struct among several positional parameters/results is rejected with an error", fmt.Sprintf("ok=%v", ok))
 		// the single-value form accepts a marker struct only when count == 1
 		okSingle := false
-		for _, ci := range core.Calls(lifter) {
+		for _, ci := range p.RegionCalls(lifter) {
 			if ci.Common().StaticCallee() == walker {
 				for _, l := range core.Lits(core.Guards(ci.Block())) {
 					if l.Kind == "cmp" && l.Op == token.EQL && l.Pol {
@@ -1225,21 +1341,31 @@ func (c *Ctx) runStructWalk(walker *ssa.Function) {
 							all = false
 							continue
 						}
-						rv := r.Results[x.Index]
-						if s, ok := core.ConstString(rv); ok && s == "" {
-							continue
-						}
-						if ld, ok := rv.(*ssa.UnOp); ok {
-							if ia, ok := ld.X.(*ssa.IndexAddr); ok {
-								if k, ok := core.ConstInt(ia.Index); ok && k == 0 {
-									if cl, ok := ia.X.(*ssa.Call); ok && core.CalleeName(cl.Common()) == "strings.Split" {
-										any = true
-										continue
+						for _, rv := range core.Sources(r.Results[x.Index]) {
+							if s, ok := core.ConstString(rv); ok && s == "" {
+								continue
+							}
+							// the helper hands back the name it was given (no override in the tag): what the call site passed
+							if prm, ok := rv.(*ssa.Parameter); ok && prm.Parent() == h {
+								for i, q := range h.Params {
+									if q == prm && i < len(hc.Common().Args) {
+										nameWalk(hc.Common().Args[i], d+1)
+									}
+								}
+								continue
+							}
+							if ld, ok := rv.(*ssa.UnOp); ok {
+								if ia, ok := ld.X.(*ssa.IndexAddr); ok {
+									if k, ok := core.ConstInt(ia.Index); ok && k == 0 {
+										if cl, ok := ia.X.(*ssa.Call); ok && core.CalleeName(cl.Common()) == "strings.Split" {
+											any = true
+											continue
+										}
 									}
 								}
 							}
+							all = false
 						}
-						all = false
 					}
 					if all && any {
 						nameSrc["tag-part-0"] = true
@@ -1281,6 +1407,54 @@ func (c *Ctx) runStructWalk(walker *ssa.Function) {
 		}
 	}
 	c.R.Add("STRUCTWALK", "typeOnly-empties-name", "structWalker", p.InstrPos(app), emptyOK, "the name is emptied exactly when the tag carries the type-only option", fmt.Sprintf("ok=%v", emptyOK))
+	// S4b: the options consulted for a field are those parsed from that field's own tag — the option map is not
+	// carried from one field (loop iteration) to the next
+	{
+		carried := ""
+		nLook := 0
+		for _, g := range p.Region(walker) {
+			headers := map[*ssa.BasicBlock]bool{}
+			for _, lp := range naturalLoops(g) {
+				headers[lp.header] = true
+			}
+			core.Instrs(g, func(in ssa.Instruction) {
+				lk, ok := in.(*ssa.Lookup)
+				if !ok || core.TypeStr(lk.X.Type()) != "map[string]string" {
+					return
+				}
+				nLook++
+				seen := map[ssa.Value]bool{}
+				var walkv func(v ssa.Value)
+				walkv = func(v ssa.Value) {
+					if v == nil || seen[v] {
+						return
+					}
+					seen[v] = true
+					if ph, ok := v.(*ssa.Phi); ok {
+						if headers[ph.Block()] {
+							carried = "option map at " + p.InstrPos(lk) + " is carried over from the previous field (loop-header phi)"
+						}
+						for _, e := range ph.Edges {
+							walkv(e)
+						}
+					}
+					if ld, ok := v.(*ssa.UnOp); ok {
+						if al, ok := ld.X.(*ssa.Alloc); ok {
+							// a spilled local: declared outside the loop and assigned inside = carried
+							for _, ref := range *al.Referrers() {
+								if st, ok := ref.(*ssa.Store); ok && st.Addr == ssa.Value(al) {
+									walkv(st.Val)
+								}
+							}
+						}
+					}
+				}
+				walkv(lk.X)
+			})
+		}
+		c.R.Add("STRUCTWALK", "options-per-field", "structWalker", p.Pos(walker.Pos()), carried == "" && nLook > 0,
+			"the options consulted for a field (subtype, typeOnly) come from that field's own tag, never from a previously visited field", ternary(carried == "", fmt.Sprintf("%d option lookups, none loop-carried", nLook), carried))
+	}
 	// S5 skip unexported fields and the marker
 	skipUnexp, skipMarker := false, false
 	for _, l := range p.ExpandLitsKeep(p.ILits(app.Block())) {
